@@ -3,7 +3,7 @@
 
    validate_complete                         FULL   (every job satisfying all documented constraints is accepted)
    validate_sound_partial                    PARTIAL: accepted -> all documented constraints hold, for jobs
-                                             outside the documented-vs-code discrepancies D1,D2,D3,D4,D6,D8
+                                             outside the documented-vs-code discrepancies D2,D3,D8 (D1, D4, D6 repaired upstream)
    validate_errno_names_a_violation_partial  PARTIAL: excludes ZUC-EEA3 jobs whose 64-bit key length does not
                                              fit 32 bits (D2)
    validate_sound_refuted_*, validate_errno_refuted_*: concrete jobs on which the unrestricted
@@ -42,11 +42,6 @@ Theorem C12_validate_errno_refuted :
 Proof. exact validate_errno_statement_is_false. Qed.
 Print Assumptions C12_validate_errno_refuted.
 
-Theorem C12_refuted_D1_chacha_pairing :
-  exists j, well_formed j = true /\ is_job_invalid j = None /\ job_ok j = false /\ violations j = [IMB_ERR_HASH_ALGO].
-Proof. exact validate_sound_refuted_D1_chacha_pairing. Qed.
-Print Assumptions C12_refuted_D1_chacha_pairing.
-
 Theorem C12_refuted_D2_key_len_truncated :
   exists j, well_formed j = true /\ is_job_invalid j = None /\ job_ok j = false /\ violations j = [IMB_ERR_JOB_KEY_LEN].
 Proof. exact validate_sound_refuted_D2_key_len_truncated. Qed.
@@ -56,16 +51,6 @@ Theorem C12_refuted_D3_sgl_total_wraps :
   exists j, well_formed j = true /\ is_job_invalid j = None /\ job_ok j = false /\ violations j = [IMB_ERR_JOB_CIPH_LEN].
 Proof. exact validate_sound_refuted_D3_sgl_total_wraps. Qed.
 Print Assumptions C12_refuted_D3_sgl_total_wraps.
-
-Theorem C12_refuted_D4_cbcs_key_len :
-  exists j, well_formed j = true /\ is_job_invalid j = None /\ job_ok j = false /\ violations j = [IMB_ERR_JOB_KEY_LEN].
-Proof. exact validate_sound_refuted_D4_cbcs_key_len. Qed.
-Print Assumptions C12_refuted_D4_cbcs_key_len.
-
-Theorem C12_refuted_D6_sm4_key_len :
-  exists j, well_formed j = true /\ is_job_invalid j = None /\ job_ok j = false /\ violations j = [IMB_ERR_JOB_KEY_LEN].
-Proof. exact validate_sound_refuted_D6_sm4_key_len. Qed.
-Print Assumptions C12_refuted_D6_sm4_key_len.
 
 Theorem C12_refuted_D8_docsis_offset_wraps :
   exists j, well_formed j = true /\ is_job_invalid j = None /\ job_ok j = false /\ violations j = [IMB_ERR_JOB_SRC_OFFSET].
